@@ -8,6 +8,7 @@ Tie, two ways: (1) the records the real watcher receives for every call are comp
 records go through Op.Encode / DecodeOp into ApplyPatch on a second instance and the logical dumps
 of primary and replica are compared.  Key / field / member names are kept valid UTF-8 here: the wire
 encoding (protobuf `string` fields) cannot carry other names - known finding."""
+import os
 import vlib, gen_api
 from checks import apicheck
 
@@ -80,8 +81,10 @@ def run(ctx, proofs_ok):
         if vlib.correspond_stream(ctx, hft, out, f"p{i}", "a watcher with narrow patterns receives exactly the matching records of the * watcher, in order"):
             return
     # the implementation's own verdict (independent of the model)
-    import glob as _g
-    for f in _g.glob(f"{ctx.work}/p*.g"):
+    for i in range(6 if q else 40):
+        f = f"{ctx.work}/p{i}.g"
+        if not os.path.exists(f):
+            continue
         for line in open(f):
             if line.startswith("feedp") and "MISMATCH" in line:
                 vlib.record_violation(ctx, "pattern-filter", {"impl": [line.strip()[:2000]], "ops": [], "model": [],
